@@ -5,7 +5,7 @@
 EXTENDS PyObjects, Json, CSV, IOUtils
 
 DumpFile == IF "VERIF_DUMP" \in DOMAIN IOEnv THEN IOEnv.VERIF_DUMP ELSE ""
-View == <<inst, wr>>
+View == <<inst, wr, marks>>
 \* what a complete history is worth replaying: it used at least one returned wrapper
 Interesting == Len(hist) >= 3
 
@@ -13,7 +13,13 @@ DumpConstraint ==
   IF DumpFile # "" /\ AllDropped /\ Interesting
     THEN CSVWrite("%1$s", <<ToJson([steps |-> hist])>>, DumpFile)
     ELSE TRUE
-\* simulation mode: dump every maximal prefix (the simulator stops at MaxDepth)
+\* simulation mode (-simulate): TLC evaluates the constraint on every candidate successor, so the
+\* dump is tied to a marker step that is the only step possible at the end of a history
+EndMark == /\ Len(hist) = MaxDepth - 1
+           /\ hist' = Append(hist, Snap("End", 0, 0, "", wr, inst))
+           /\ UNCHANGED <<inst, wr, marks>>
+SimNext == IF Len(hist) = MaxDepth - 1 THEN EndMark ELSE Next
+SimSpec == Init /\ [][SimNext]_vars
 SimConstraint ==
   IF DumpFile # "" /\ Len(hist) = MaxDepth
     THEN CSVWrite("%1$s", <<ToJson([steps |-> hist])>>, DumpFile)
